@@ -72,12 +72,11 @@ def fieldTyOkP (cfg : Cfg) (ps : List Str) (f : Field) : Bool := f.attr.skip || 
 def fieldTyOk (cfg : Cfg) (f : Field) : Bool := f.attr.skip || tyOk cfg.limit f.ty
 
 
-/-- the items the completeness theorem covers: tagged (no `untagged`), field types readable by the model and mentioning only the
-item's own type parameters, distinct variant keys -/
+/-- the items the completeness theorem covers: field types readable by the model and mentioning only the item's own type
+parameters, distinct variant keys (`untagged` enums and variants included) -/
 def itemDeOk (cfg : Cfg) (it : Item) : Bool :=
-  !it.attr.untagged
-  && it.fields.all (fieldTyOkP cfg (it.generics.map (·.name)))
-  && it.variants.all (fun v => !v.attr.untagged && v.fields.all (fieldTyOkP cfg (it.generics.map (·.name))))
+  it.fields.all (fieldTyOkP cfg (it.generics.map (·.name)))
+  && it.variants.all (fun v => v.fields.all (fieldTyOkP cfg (it.generics.map (·.name))))
   && decide (((it.variants.filter fun v => !v.attr.skip).map (Serde.variantKey cfg it.attr.renameAll)).Nodup)
 
 def deFragB (cfg : Cfg) (env : Env) : Bool := Tree.fragB cfg env && env.all (itemDeOk cfg)
